@@ -791,7 +791,7 @@ func runC13(args []string) error {
 	r := newRng(*seed)
 	sm := newSummary("C13")
 	distinct := distinctSet{}
-	nEnv := 1500
+	nEnv := 2000
 	if *tier == "thorough" {
 		nEnv = 30000
 	}
@@ -1104,7 +1104,7 @@ func runC13(args []string) error {
 	if err := chunk("io", "io_case", "io_mis", ioCases, 200); err != nil {
 		return err
 	}
-	per := 100
+	per := 250
 	if *tier == "thorough" {
 		per = 1900
 	}
